@@ -10,10 +10,14 @@ b) fallback discipline: in FieldSelector::select_for_segment, on the `None` (can
 c) set-combinator polarity: candidate sets are may-sets; NOT of a leaf filter must not return the complement of the leaf's may-set.
 d) ZoneStepRunner::run scans segment_ids plus the in-flight snapshot; a step list narrower than that is used only under the allow_prune guard or an explicit subset.
 e) operator tables: add_where_clause maps Expr::{And,Or,Not} to LogicalOp::{And,Or,Not}; collect_zones_from_group maps And->And, Or->Or; handle_not follows De Morgan.
+f) candidate-zone identity: zone ids restart at 0 for every event type inside a segment, so every place that de-duplicates or intersects candidate zones keys them by (zone id, segment id, uid):
+   CandidateZone::uniq, ZoneHydrator::hydrate and ZoneCombiner::combine all read CandidateZone::uid for their key.
+g) hydration completeness: ZoneHydrator groups zones for loading by `zone.uid()` falling back to the plan's own event-type uid, so zones produced by index pruners (no uid) are still hydrated when
+   they are combined with uid-tagged zones of all-zones fallbacks.
 Not decided: that each leaf strategy's zone set is a superset for all values (C08), literal typing, ZoneCombiner's set algebra bodies.
 """
-FLOOR = 9
-REQUIRED = ["C02.a1", "C02.a2", "C02.a3", "C02.a4", "C02.b", "C02.c", "C02.d", "C02.e1", "C02.e2"]
+FLOOR = 11
+REQUIRED = ["C02.a1", "C02.a2", "C02.a3", "C02.a4", "C02.b", "C02.c", "C02.d", "C02.e1", "C02.e2", "C02.f", "C02.g"]
 
 SUPERSET = r"(collect_zones_for_scope|create_all_zones_for_segment_from_meta(_cached)?)$"
 
@@ -267,3 +271,52 @@ def run(ctx):
             raise AnchorMissing("ZoneCombiner::combine does not branch on self.op")
         return bad
     ctx.run("C02.e2", "K6 TABLE", "ZoneGroupCollector", "zone-set combinators: And->And, Or->Or, De Morgan under Not", e2)
+
+
+    def f_(inst):
+        bad = []
+        for nm in ("CandidateZone::uniq", "ZoneHydrator::hydrate", "ZoneCombiner::combine"):
+            b = F.fn(nm)
+            fam = [b] + [F.fn_exact(k) for k in F.find("^" + re.escape(b.key.split("::{closure")[0]) + r"::\{closure") if k != b.key]
+            # key tuples: 3-tuples starting with a u32 zone id; one component must come from CandidateZone::uid
+            found = False
+            for bb_ in fam:
+                for blk in bb_.live_blocks():
+                    for s_ in bb_.blocks[blk]["s"]:
+                        v = s_.get("v")
+                        if v and v["r"] == "agg" and v.get("ak") == "tuple" and len(v["o"]) in (2, 3):
+                            L0 = fmt_leaves(bb_.origins(v["o"][0], transparent=NEXT_TRANSPARENT))
+                            if ".zone_id" not in L0:
+                                continue
+                            has_uid = any(c_.nname.endswith("CandidateZone::uid") for c_ in bb_.calls if not c_.cleanup) and len(v["o"]) == 3
+                            inst.sites.append("%s key arity %d, uid read: %s" % (nm, len(v["o"]), has_uid))
+                            found = True
+                            if not has_uid:
+                                bad.append(("zone-key-without-uid:%s" % nm, "%s identifies candidate zones by (zone_id, segment_id) only: zone 0 of one event type replaces zone 0 of another in the same segment (wildcard REPLAY loses rows)" % nm, None))
+            if not found:
+                raise AnchorMissing("candidate-zone key tuple in %s" % nm)
+        return bad
+    ctx.run("C02.f", "K10 READS", "candidate-zone keys (uniq / hydrate / combine)", "zones of different event types are never merged into one", f_)
+
+    def g_(inst):
+        b = F.fn("ZoneHydrator::hydrate")
+        ent = [c_ for c_ in b.find_calls(r"HashMap::entry$")]
+        if not ent:
+            raise AnchorMissing("zones_by_uid.entry(..)")
+        fb = b.find_calls(r"QueryPlan::event_type_uid$")
+        uidc = b.find_calls(r"CandidateZone::uid$")
+        inst.sites = [sp(b, c_.bb) for c_ in ent[:2] + fb[:1]]
+        if not uidc:
+            raise AnchorMissing("zone.uid() in hydrate")
+        if not fb:
+            return [("no-uid-fallback", "zones without a uid are left out of hydration when other zones carry one: OR/IN over a pruned filter and a fallback filter loses rows", None)]
+        # the grouping key derives from both sources
+        ok = False
+        for e in ent:
+            w = wide_all(b, e.args[1], depth=30)
+            if any(c_.dest and c_.dest[0] in w for c_ in uidc) and any((b.await_of(c_) or (c_, None))[0].dest[0] in w or c_.dest[0] in w for c_ in fb):
+                ok = True
+        if not ok:
+            return [("uid-fallback-unused", "the plan's event-type uid is not used as the grouping key for untagged zones", None)]
+        return []
+    ctx.run("C02.g", "K7 PROV", "ZoneHydrator::hydrate", "every candidate zone is hydrated, tagged or not", g_)
